@@ -1,7 +1,8 @@
 ------------------------------- MODULE Shape -------------------------------
 (***************************************************************************)
 (* E-nodes of a define_language! language and their canonical shape.       *)
-(* An e-node is [op, sl, ch] with ch a sequence of                         *)
+(* An e-node is [op, sl, ch, ps] (sl: direct slot fields before the         *)
+(* children, ps: direct slot fields AFTER them) with ch a sequence of       *)
 (*     [bd |-> Seq(Name), id |-> Nat, args |-> Seq(Name)]                  *)
 (* i.e. per child the binders over it (Bind<Bind<..>> = several) and the   *)
 (* child invocation: class id and its argument slots in parameter order.   *)
@@ -22,7 +23,8 @@ Concat(ss) == IF ss = << >> THEN << >> ELSE Head(ss) \o Concat(Tail(ss))
 ChildOcc(c) == [i \in 1..Len(c.bd) |-> <<c.bd[i], FALSE>>] \o
                [i \in 1..Len(c.args) |-> <<c.args[i], c.args[i] \notin Range(c.bd)>>]
 Occ(n) == [i \in 1..Len(n.sl) |-> <<n.sl[i], TRUE>>] \o
-          Concat([k \in 1..Len(n.ch) |-> ChildOcc(n.ch[k])])
+          Concat([k \in 1..Len(n.ch) |-> ChildOcc(n.ch[k])]) \o
+          [i \in 1..Len(n.ps) |-> <<n.ps[i], TRUE>>]
 AllOcc(n)  == [i \in 1..Len(Occ(n)) |-> Occ(n)[i][1]]
 PubOcc(n)  == LET o == SelectSeq(Occ(n), LAMBDA p : p[2]) IN [i \in 1..Len(o) |-> o[i][1]]
 PrivOcc(n) == LET o == SelectSeq(Occ(n), LAMBDA p : ~p[2]) IN [i \in 1..Len(o) |-> o[i][1]]
@@ -76,7 +78,8 @@ NumCh(ch, env, cnt) ==
 RefShapeFull(n) ==
   LET s == NumSeq(n.sl, << >>, 0)
       c == NumCh(n.ch, s.env, s.cnt)
-  IN [shape |-> [op |-> n.op, sl |-> s.out, ch |-> c.out], env |-> c.env]
+      q == NumSeq(n.ps, c.env, c.cnt)       \* a slot field after the children: the binders' scopes have ended
+  IN [shape |-> [op |-> n.op, sl |-> s.out, ch |-> c.out, ps |-> q.out], env |-> q.env]
 
 RefShape(n) == RefShapeFull(n).shape
 (* number -> original free name *)
@@ -87,7 +90,8 @@ RenNode(n, m) ==
   [op |-> n.op, sl |-> [i \in DOMAIN n.sl |-> m[n.sl[i]]],
    ch |-> [k \in DOMAIN n.ch |->
       [bd |-> [i \in DOMAIN n.ch[k].bd |-> m[n.ch[k].bd[i]]], id |-> n.ch[k].id,
-       args |-> [i \in DOMAIN n.ch[k].args |-> m[n.ch[k].args[i]]]]]]
+       args |-> [i \in DOMAIN n.ch[k].args |-> m[n.ch[k].args[i]]]]],
+   ps |-> [i \in DOMAIN n.ps |-> m[n.ps[i]]]]
 
 (* apply a map to the PUBLIC occurrences only (Language::apply_slotmap)      *)
 ApplyPub(n, m) ==
@@ -95,7 +99,8 @@ ApplyPub(n, m) ==
    ch |-> [k \in DOMAIN n.ch |->
       [bd |-> n.ch[k].bd, id |-> n.ch[k].id,
        args |-> [i \in DOMAIN n.ch[k].args |->
-                   IF n.ch[k].args[i] \in Range(n.ch[k].bd) THEN n.ch[k].args[i] ELSE m[n.ch[k].args[i]]]]]]
+                   IF n.ch[k].args[i] \in Range(n.ch[k].bd) THEN n.ch[k].args[i] ELSE m[n.ch[k].args[i]]]]],
+   ps |-> [i \in DOMAIN n.ps |-> m[n.ps[i]]]]
 
 Equiv(n1, n2) == RefShape(n1) = RefShape(n2)
 (* alpha-equivalence only: same shape AND same free names at the same places *)
